@@ -122,7 +122,12 @@ fn one(ctx: &Ctx, rep: &mut Report, id: usize, cfg: Cfg, k: usize, global: &mut 
     <FmPoint as Gx>::case_reset();
     let mut rng = ctx.rng("c13", id as u64);
     let seeded = cfg.m == 1 && k % 2 == 0;
-    let case = Case::random(cfg, VALUE_CLASSES[k % 6], PROMISE_CLASSES[k % 5], seeded, &mut rng);
+    let mut case = Case::random(cfg, VALUE_CLASSES[k % 6], PROMISE_CLASSES[k % 5], seeded, &mut rng);
+    if seeded && id % 7 == 0 {
+        // corner seeds: zero and one are seeds like any other
+        case.seed = Some(if id % 14 == 0 { Scalar::ZERO } else { Scalar::ONE });
+        rep.count("corner_seed_cases", 1);
+    }
     let prm = case.params();
     let replay = |what: &str| json!({"tier": if ctx.thorough() {"thorough"} else {"quick"}, "seed": ctx.seed, "leg": "fm", "case": id, "descr": case.json(), "step": what});
     // the same instance under several external RNGs (healthy x2 and faulty ones)
